@@ -854,6 +854,9 @@ pub fn catalogue(ch: u8) -> Vec<Vec<u8>> {
         vec![cc, 0x40, 0x7F, 0x41, 0x00],
         vec![on, 0x3C, 0x64, cc, 0x7B, 0x00],
         vec![cc, 0x07, 0x22, cc, 0x79, 0x00],
+        vec![cc, 0x07, 0x22, 0x79, 0x00, 0x01, 0x7F],
+        vec![on, 0x3C, 0x64, cc, 0x79, 0x00, 0x7B, 0x00],
+        vec![pb, 0x11, 0x22, 0x33, 0x44, cc, 0x79, 0x7F, 0x05, 0x06],
         vec![pb, 0x00, 0x40],
         vec![pb, 0x7F, 0x7F, 0x00, 0x00],
         // truncated messages followed by a complete one
@@ -957,7 +960,7 @@ pub fn c06(ctx: &Ctx) -> Report {
     // (i)
     for ch in if thorough { vec![0u8, 5] } else { vec![0u8] } {
         let f = (ch + 1) % 16;
-        let mut alpha: Vec<u8> = vec![0x00, 0x3C, 0x7B, 0x40];
+        let mut alpha: Vec<u8> = vec![0x00, 0x3C, 0x7B, 0x40, 0x79];
         for k in [0x80u8, 0x90, 0xB0, 0xE0] {
             alpha.push(k | ch);
         }
@@ -966,7 +969,6 @@ pub fn c06(ctx: &Ctx) -> Report {
         if thorough {
             alpha.push(0x80 | f);
             alpha.push(0xE0 | f);
-            alpha.push(0x79);
             alpha.push(0x01);
         }
         alpha.extend([0xA0 | ch, 0xC0 | ch, 0xD0 | ch]);
@@ -1124,7 +1126,13 @@ pub fn c06(ctx: &Ctx) -> Report {
                 for val in [0u8, 64, 127] {
                     let s = vec![0xB0 | ch, num, val, 0x90 | f, 0x3C, 0x64, 0xB0 | f, 0x01, 0x40, 0xE0 | f, 0x00, 0x10, 0xB0 | f, 0x7B, 0x00, 0x90 | ch, 0x3E, 0x64, 0x80 | f, 0x3E, 0x00, 0xE0 | ch, 0x7F, 0x7F];
                     run_stream(ch, &s, lc);
-                    lc.count("after_controller_streams", 1);
+                    // running status survives every controller message: more controller messages without a status byte
+                    let s2 = vec![0xB0 | ch, num, val, 0x01, 0x55, 0x40, 0x00, num, val ^ 0x7F, 0x07, 0x11, 0x7B, 0x00, 0x4A, 0x7F];
+                    run_stream(ch, &s2, lc);
+                    // ... also with a note held and a real-time byte in between
+                    let s3 = vec![0x90 | ch, 0x3C, 0x64, 0xB0 | ch, num, val, 0xF8, 0x7B, 0x00, 0x01, 0x22];
+                    run_stream(ch, &s3, lc);
+                    lc.count("after_controller_streams", 3);
                 }
             }
         });
